@@ -84,6 +84,57 @@ EVAL_KEEP = (r"^sqlgrep::model::|^sqlgrep::data_model::|ColumnProvider|^sqlgrep:
              r"^sqlgrep::execution::expression_execution::unique_values$")
 
 
+def _case_select_form(f, reg, nx, evs):
+    """`let mut sel = else_clause; for (c, r) in clauses { if eval(c).bool() { sel = r; break } } eval(sel)`: the same choice, made before the
+    one evaluation.  Decided from the definitions of `sel`: the ELSE definition precedes the loop, the THEN definition sits on the true edge
+    of the condition and leaves the loop, and the evaluation follows the loop."""
+    lp = PR.loop_of(f, nx.bb)
+    bools = [c for c in f.calls if c.bb in reg and short(c.name) == V + "::bool"]
+    if lp is None or len(bools) != 1:
+        return False
+    cond_ev = [c for c in evs if any(o.kind == "call" and o.call is c for o in F.origins(f, bools[0].args[0], depth=12))]
+    val_ev = [c for c in evs if c not in cond_ev]
+    g3 = PR.bool_guard(f, bools[0])
+    gn = PR.discr_guard(f, nx, "Some")
+    if len(cond_ev) != 1 or cond_ev[0].bb not in lp[1] or len(val_ev) != 1 or g3 is None or gn is None or val_ev[0].bb in lp[1]:
+        return False
+    e = val_ev[0]
+    # the local that holds the chosen tree
+    root = e.args[1] if len(e.args) > 1 else None
+    seen = 0
+    while root is not None and root.get("k") in ("copy", "move") and seen < 6:
+        seen += 1
+        l = root["pl"]["l"]
+        defs = [(b, st) for (b, st) in F._assign_defs(f).get(l, []) if not st["pl"]["p"]]
+        if len(defs) == 1 and defs[0][1]["rv"]["k"] == "use":
+            root = defs[0][1]["rv"]["op"]
+            continue
+        if len(defs) == 1 and defs[0][1]["rv"]["k"] in ("ref", "copy_for_deref") and defs[0][1]["rv"]["pl"]["p"] == ["*"]:
+            root = {"k": "copy", "pl": {"l": defs[0][1]["rv"]["pl"]["l"], "p": []}}
+            continue
+        break
+    if root is None or root.get("k") not in ("copy", "move"):
+        return False
+    defs = [(b, st) for (b, st) in F._assign_defs(f).get(root["pl"]["l"], []) if not st["pl"]["p"]]
+    if len(defs) != 2:
+        return False
+    kinds = {}
+    for b, st in defs:
+        rv = st["rv"]
+        src = rv.get("op") or rv.get("pl")
+        os_ = F.origins(f, src, depth=10) if src is not None else []
+        if any(o.kind == "call" and o.call is nx for o in os_):
+            kinds["then"] = b
+        elif any(o.kind == "arg" for o in os_):
+            kinds["else"] = b
+    if set(kinds) != {"then", "else"}:
+        return False
+    bt, be = kinds["then"], kinds["else"]
+    return PR.dominated_by_edge(f, bt, g3[0], g3[1]) and bt in lp[1] | f.reachable_from(g3[1]) and lp[0] not in f.reachable_from(bt) and \
+        be not in lp[1] and f.dominates(be, lp[0]) and e.bb in f.reachable_from(bt) and \
+        any(e.bb in f.reachable_from(nt) for nt in gn[2])
+
+
 def run(R):
     P = R.prog
     R.rule("C03.sites", "no unchecked arithmetic, narrowing cast or panicking call on evaluated data (site inventory rooted at evaluate)")
@@ -489,6 +540,8 @@ def run(R):
                         none_reg |= f.reachable_from(nt)
                     ok = len(res_ev) == 1 and lp[0] not in f.reachable_from(res_ev[0].bb) and \
                         len(else_ev) == 1 and else_ev[0].bb in none_reg and not PR.dominated_by_edge(f, else_ev[0].bb, g3[0], g3[1])
+        if not ok and len(nx) == 1 and not rev and len(evs) == 2:
+            ok = _case_select_form(f, creg2, nx[0], evs)
         if ok:
             R.ok("C03.case", "evaluate|Case", "clauses in order; first true condition returns its result; ELSE after the loop", nx[0].loc())
         else:
